@@ -25,7 +25,7 @@ func MainC20(prop, tier string) int {
 		r.Floor("quiescent_preview_checks", 1)
 		return r.Finish()
 	}
-	r.Fanout("c20", vk.NumWorkers(), 40*time.Minute)
+	r.Fanout("c20", vk.NumWorkers(), 90*time.Minute)
 	r.Floor("quiescent_preview_checks", 60)
 	r.Floor("preview_starts_logged", 100)
 	return r.Finish()
@@ -65,7 +65,7 @@ func workerC20(r *vk.Run, w, n int, args []string) {
 	rng := rand.New(rand.NewSource(r.Seed*9001 + int64(w)*151 + 4))
 	sessions := 240
 	if !r.Quick() {
-		sessions = 1000
+		sessions = 5000
 	}
 	per := sessions/n + 1
 	for i := 0; i < per; i++ {
